@@ -20,6 +20,11 @@ func New(ctx context.Context, cfg config.Config) (*db, error) {
 
 	container := di.New(cfg)
 
+	// The container builds its parts lazily and without synchronisation: build
+	// everything requests will touch before the database is handed out.
+	container.Store()
+	container.Transaction()
+
 	container.Pool().Run(ctx)
 	deleteFiles, err := container.Core().Load(ctx)
 	if err != nil {
